@@ -33,7 +33,27 @@ pub fn case_hash(cx: &Cx, v: &Val) -> u64 { hash64(&[cx.type_id.as_bytes(), form
 
 /// Scaling factors that push the borrowed payload of a value past a page, an 8 KiB
 /// BufReader/BufWriter buffer and 64 KiB.
-pub const LARGE_SCALES: [usize; 2] = [3_000, 30_000];
+/// Scalings of the large-value passes: payloads past a page / 8 KiB / 64 KiB, payloads of an exact
+/// multiple of 2^16 items, and (REPEAT mode) sequences of more than 2^16 items whatever the items.
+pub const LARGE_SCALES: [usize; 4] = [3_000, 30_000, 65_536, crate::dom::REPEAT | 65_537];
+
+/// Predicted stream length of value `i` under scaling `k` (lengths are affine in `k`).
+pub fn scaled_len(t: &dyn TypeOps, i: usize, k: usize) -> usize {
+    let m = k & crate::dom::REPEAT;
+    match (t.ser_scaled(i, m | 1), t.ser_scaled(i, m | 2)) {
+        (Out::Ok((a, _)), Out::Ok((b, _))) => a.len() + b.len().saturating_sub(a.len()) * ((k & !crate::dom::REPEAT) - 1),
+        _ => 0,
+    }
+}
+
+/// The two widest scalings are applied only while the stream stays below this size (quick tier).
+pub const LARGE_CAP: usize = 1 << 20;
+
+/// Index of the first value that the large-value pass with scaling `k` makes larger, if any.
+pub fn first_growing(t: &dyn TypeOps, n: usize, k: usize) -> Option<usize> {
+    if k & crate::dom::REPEAT == 0 { return first_scalable(t, n); }
+    (0..n).find(|&i| match (t.ser(i), t.ser_scaled(i, crate::dom::REPEAT | 2)) { (Out::Ok((a, _)), Out::Ok((b, _))) => b.len() > a.len(), _ => false })
+}
 
 /// Index of the first value whose model trace has a non-empty borrowed block (the values
 /// that `scale` makes larger), if any.
@@ -86,8 +106,9 @@ pub fn c01(t: &dyn TypeOps, cx: &mut Cx) {
         }
     }
     // large values: the same skeleton with every sequence payload scaled past a page / 8 KiB / 64 KiB
-    if let Some(i) = first_scalable(t, n) {
-        for k in LARGE_SCALES {
+    for k in LARGE_SCALES {
+        if let Some(i) = first_growing(t, n, k) {
+            if (k & !crate::dom::REPEAT) > 30_000 && cx.tier == Tier::Quick && scaled_len(t, i, k) > LARGE_CAP { cx.count("large_values_over_cap_left_to_thorough", 1); continue; }
             cx.evals += 1;
             match t.ser_scaled(i, k) {
                 Out::Ok((bytes, sval)) => {
@@ -113,6 +134,7 @@ pub fn c02(t: &dyn TypeOps, cx: &mut Cx, c03: bool) {
     let ty = t.ty();
     let n = build(t, cx);
     let mut arena = Arena::new(1 << 16);
+    let growing: Vec<Option<usize>> = if c03 { vec![] } else { LARGE_SCALES.iter().map(|k| first_growing(t, n, *k)).collect() };
     for i in 0..n {
         let want = t.val(i);
         let enc = encode(&ty, &want, t.type_name());
@@ -142,8 +164,9 @@ pub fn c02(t: &dyn TypeOps, cx: &mut Cx, c03: bool) {
                 o => cx.violate("eps-disagrees-with-full", json!({"value": vdesc(i, &want), "eps": format!("{:?}", got), "full": o.describe()})),
             }
             if i < 1 { cx.sample(json!({"type": cx.type_id, "value": format!("{:?}", want), "eps": format!("{:?}", got)})); }
-            if Some(i) == first_scalable(t, n) {
-                for k in LARGE_SCALES {
+            for (kk, k) in LARGE_SCALES.into_iter().enumerate() {
+                if Some(i) == growing.get(kk).copied().flatten() {
+                    if (k & !crate::dom::REPEAT) > 30_000 && cx.tier == Tier::Quick && scaled_len(t, i, k) > LARGE_CAP { cx.count("large_values_over_cap_left_to_thorough", 1); continue; }
                     cx.evals += 1;
                     if let Out::Ok((lb, sval)) = t.ser_scaled(i, k) {
                         let mut big = Arena::new(lb.len() + 4096);
@@ -354,6 +377,30 @@ pub fn c07(t: &dyn TypeOps, cx: &mut Cx) {
     let ty = t.ty();
     let n = build(t, cx);
     let nres = cx.tier.pick(64usize, 128);
+    // byte counts of large values: payloads past 64 KiB, exact multiples of 2^16 items, more
+    // than 2^16 items (no value comparison here: that is C01 / C02)
+    for k in LARGE_SCALES {
+        if let Some(i) = first_growing(t, n, k) {
+            if (k & !crate::dom::REPEAT) > 30_000 && cx.tier == Tier::Quick && scaled_len(t, i, k) > LARGE_CAP { cx.count("large_values_over_cap_left_to_thorough", 1); continue; }
+            cx.evals += 1;
+            if let Out::Ok((bytes, _)) = t.ser_scaled(i, k) {
+                let mut ext = bytes.clone();
+                ext.extend_from_slice(&[0x5A; 40]);
+                match t.full(&ext) {
+                    Out::Ok((_, pos)) if pos == bytes.len() => cx.outcome("large-full-consumed-exact"),
+                    Out::Ok((_, pos)) => cx.violate("large-value-full-consumes-wrong-count", json!({"value_index": i, "scale": k & !crate::dom::REPEAT, "consumed": pos, "written": bytes.len()})),
+                    o => cx.violate(&format!("large-value-full-{}", o.class()), json!({"value_index": i, "scale": k & !crate::dom::REPEAT, "observed": o.describe()})),
+                }
+                let mut arena = Arena::new(ext.len() + 4096);
+                let placed = arena.place(0, &ext);
+                match t.eps_consumed(placed) {
+                    Out::Ok(pos) if pos == bytes.len() => cx.outcome("large-eps-consumed-exact"),
+                    Out::Ok(pos) => cx.violate("large-value-eps-consumes-wrong-count", json!({"value_index": i, "scale": k & !crate::dom::REPEAT, "consumed": pos, "written": bytes.len()})),
+                    o => cx.violate(&format!("large-value-eps-{}", o.class()), json!({"value_index": i, "scale": k & !crate::dom::REPEAT, "observed": o.describe()})),
+                }
+            }
+        }
+    }
     for i in 0..n {
         let want = t.val(i);
         cx.evals += 1;
